@@ -17,6 +17,9 @@
  *   connv / connx            same, plus nghttp2's inflater on the same blocks: trailing "x=ok" |
  *                            "x=BAD@<op>" (connv: both must accept and agree; connx: if both
  *                            accept they must agree)
+ *                            (lshpack's encoder never emits dynamic table size updates; at this
+ *                            lshpack-only level the harness supplies them to nghttp2 after S<n>/C<n>,
+ *                            as h2.c does for real connections -- the resp op below injects nothing)
  * tool ops (producers of header blocks; output consumed by the check, not by the model):
  *   lsenc <op>...            real lshpack encoder (history on, as h2_init_con does):
  *                            block "name:value:flags,..." -> hex, "C<n>" set_max_capacity;
